@@ -89,6 +89,36 @@ class NestingVertex(Vertex):
             self._side = pickle.loads(blob)
 
 
+class UnhashableVertex(Vertex):
+    """
+    Defines __eq__ (as identity) and therefore, as Python has it, no __hash__:
+    the kind of class a dataclass with eq=True produces.  Equality is unchanged;
+    the object just cannot be put into a set or used as a dict key.
+    """
+
+    def __eq__(self, other):
+        return self is other
+
+    __hash__ = None
+
+
+class PriorityVertex(Vertex):
+    """Overrides the public `links` view: same links, presented in another order."""
+
+    @property
+    def links(self):
+        return tuple(sorted(Vertex.links.fget(self), key=lambda l: -l.uid % 1009))
+
+
+class MigratingVertex(Vertex):
+    """A subclass with its own __setstate__ (schema migration), written without super()."""
+
+    def __setstate__(self, state):
+        state = dict(state)
+        state.setdefault("_schema", 2)  # private: the public attributes stay as pickled
+        self.__dict__.update(state)
+
+
 class SlottedVertex(Vertex):
     """A vertex subclass that keeps some of its attributes in __slots__."""
 
@@ -97,6 +127,37 @@ class SlottedVertex(Vertex):
 
 class SubUniverse(Universe):
     """A plain subclass of Universe."""
+
+
+class UnhashableUniverse(Universe):
+    """A universe class that defines __eq__ only (identity), hence is unhashable."""
+
+    def __eq__(self, other):
+        return self is other
+
+    __hash__ = None
+
+
+class ClusterUniverse(Universe):
+    """A universe that is itself iterable over its members (a legal adjacency value)."""
+
+    def __iter__(self):
+        return iter(self.vertices)
+
+
+class RaisingUniverse(Universe):
+    """
+    A subclass whose add_vertex override does its own work after super() and
+    fails for some vertices (tag 4): an exception out of user code, raised when
+    both sides of the membership are already recorded.
+    """
+
+    def add_vertex(self, vert):
+        super().add_vertex(vert)
+        if getattr(vert, "sim_tag", None) == 4:
+            from egsim.seams import InjectedFault
+
+            raise InjectedFault("directory index failed")
 
 
 class FalsyUniverse(Universe):
@@ -173,6 +234,17 @@ class BondEdge(UnDirectedEdge):
         return id(self) >> 4
 
 
+class LabelledEdge(DirectedEdge):
+    """Keeps a class-level default and overrides it per instance through attributes=."""
+
+    label = "?"
+
+    def __init__(self, v1=None, v2=None, *, uid=None, attributes=None):
+        attrs = {"label": "made"}
+        attrs.update(attributes or {})
+        super().__init__(v1, v2, uid=uid, attributes=attrs)
+
+
 class _FalsyMeta(type):
     """Classes made with this metaclass are falsy (e.g. len(cls) counts something)."""
 
@@ -209,6 +281,9 @@ VERTEX_CLASSES = {
     "EqVertex": EqVertex,
     "HandoverVertex": HandoverVertex,
     "NestingVertex": NestingVertex,
+    "UnhashableVertex": UnhashableVertex,
+    "PriorityVertex": PriorityVertex,
+    "MigratingVertex": MigratingVertex,
 }
 UNIVERSE_CLASSES = {
     "Universe": Universe,
@@ -216,6 +291,9 @@ UNIVERSE_CLASSES = {
     "FalsyUniverse": FalsyUniverse,
     "RejectingUniverse": RejectingUniverse,
     "EqUniverse": EqUniverse,
+    "UnhashableUniverse": UnhashableUniverse,
+    "ClusterUniverse": ClusterUniverse,
+    "RaisingUniverse": RaisingUniverse,
 }
 EDGE_CLASSES = {
     "DirectedEdge": DirectedEdge,
@@ -228,6 +306,7 @@ EDGE_CLASSES = {
     "FrozenEdge": FrozenEdge,
     "JoiningEdge": JoiningEdge,
     "BondEdge": BondEdge,
+    "LabelledEdge": LabelledEdge,
 }
 ALL_CLASSES = dict(VERTEX_CLASSES)
 ALL_CLASSES.update(UNIVERSE_CLASSES)
@@ -328,6 +407,8 @@ def nb_filter(name):
     """
     if name is None:
         return None
+    if name == "~global":
+        return lambda edge, other: isinstance(edge, (DirectedEdge, UnDirectedEdge)) or other is None
     if name.startswith("~"):
         base = NB_FILTERS[name[1:]]
         return lambda edge, other: base(edge, other)
